@@ -758,6 +758,9 @@ func writeEvidence(m *Merged, newViol, known int, wall float64) {
 		cov["distinct_nontrivial"] = int64(0)
 	}
 	cov["rule"] = ck.Rule
+	if len(m.Samples) == 0 {
+		m.Samples = []any{map[string]any{"class": "none-recorded", "case": "the check recorded no sample case in this run (see histogram and bounds)"}}
+	}
 	cov["samples"] = m.Samples
 	cov["exhaustive"] = m.Exhaustive && len(m.Caps) == 0
 	cov["caps_hit"] = m.Caps
